@@ -310,9 +310,14 @@ def rule_driver(ctx, px):
                "" if n_upd >= 1 else "the carried text is never renewed inside the chunk loop", cl.lineno)
 
     # _generate_code: no processors -> parts written verbatim
-    gc = px.func(GEN_MOD, "CodeGenerator._generate_code")
+    from checks import _gen
+    gc = _gen.render_view(px.func(GEN_MOD, "CodeGenerator._generate_code"))
     found = False
     for st, gd in pyfront.walk_guarded(gc.node.body):
+        if isinstance(st, ast.Expr) and isinstance(st.value, ast.Call) and isinstance(st.value.func, ast.Attribute) and st.value.func.attr == "writelines" \
+                and [ast.unparse(a_) for a_ in st.value.args] == ["template_gen"]:
+            found = True      # file.writelines(chunks) writes every chunk as it is
+            ctx.ob(R, gc.module.rel, f"{gc.short} :: without line processors each chunk is written unmodified", True, "", st.lineno)
         if isinstance(st, ast.For) and ast.unparse(st.iter) == "template_gen":
             found = True
             body_ok = len(st.body) == 1 and isinstance(st.body[0], ast.Expr) and isinstance(st.body[0].value, ast.Call) \
